@@ -32,7 +32,9 @@ func runC17(r *Run) {
 		"per matched pair, equal to the one request the maker opens. re-proposals: 2-3 proposals of the same pairs with a new batch tx " +
 		"and later height hint, separated by the real RemovePendingBatchArtifacts with all / some / no shim cancels succeeding, " +
 		"against an lnd mock that refuses duplicate pending ids and keeps the first shim; oracle: whenever the bidder accepts a " +
-		"proposal, the shims its lnd holds equal what the makers open for that proposal"
+		"proposal, the shims its lnd holds equal what the makers open for that proposal. concurrency: 8 goroutines derive the shims " +
+		"and pending ids of 8 different pairs through one real funding.Manager at once (300 rounds each); every result must equal " +
+		"the result of the same call made alone and sha256(ask||bid)"
 
 	// compiled values of the constants the model hard-codes / regenerates
 	r.Emit("C17 consts", fmt.Sprintf("cse=%d cst=%d ffa=%d msat=%d pd=%d se=%d st=%d unit=%d rpcunk=%d rpcsel=%d rpcst=%d kfms=%d",
@@ -65,6 +67,11 @@ func runC17(r *Run) {
 			if json.Unmarshal(raw, &c) == nil {
 				fund.execBatch(&c)
 			}
+		case "conc":
+			var c c17ConcCase
+			if json.Unmarshal(raw, &c) == nil {
+				fund.execConcurrent(&c)
+			}
 		case "repro":
 			var c c17ReproCase
 			if json.Unmarshal(raw, &c) == nil {
@@ -94,6 +101,9 @@ func runC17(r *Run) {
 		}
 		if i%5 == 0 {
 			fund.execBatch(&c17BatchCase{Kind: "batch", Seed: r.Rng.Int63()})
+		}
+		if i%50 == 7 {
+			fund.execConcurrent(&c17ConcCase{Kind: "conc", Seed: r.Rng.Int63()})
 		}
 		if i%5 == 2 {
 			fund.execRepro(&c17ReproCase{Kind: "repro", Seed: r.Rng.Int63()})
